@@ -30,9 +30,10 @@ def lengths_agree(m):
     """class invariant: positions, orientations and feature rows have the same count"""
     n = n_of(m)
     rot = m.attrs["_rotator"]
-    ok = V.compare("==", rot.n, n) if rot.n is not None else V.compare("==", n, 1)
+    # (an empty set of molecules carries one identity rotation as a placeholder: scipy's single Rotation)
+    ok = V.compare("==", rot.n, n) if rot.n is not None else V.compare("==", n, 0)
     f = m.attrs["_features"]
-    if f is not None:
+    if f is not None and f.cols:          # (a table without columns is polars' empty frame: no features)
         ok = V.sand(ok, V.compare("==", f.n, n))
     return ok
 
@@ -62,12 +63,12 @@ def src_of(spec, n):
     return 1, (lambda j: spec)
 
 
-def same_row(res, j, src, i, cols=("f0",)):
-    """row j of `res` is row i of `src`: position, orientation matrix and every feature value"""
+def same_row(res, j, src, i, with_features=True):
+    """row j of `res` is row i of `src`: position, orientation matrix and (unless disabled) every feature value"""
     parts = [V.compare("==", res.attrs["_pos"].at((j, a)), src.attrs["_pos"].at((i, a))) for a in range(3)]
     parts.append(mateq(M(res.attrs["_rotator"], j), M(src.attrs["_rotator"], i)))
     fs, fr = src.attrs["_features"], res.attrs["_features"]
-    if fs is not None:
+    if fs is not None and with_features:
         if fr is None:
             return False
         for c in fs.cols:
@@ -85,7 +86,20 @@ def spec_kind(spec):
     return "int"
 
 
-_H = dict(spec_kind=spec_kind, n_of=n_of, feat_n=feat_n, lengths_agree=lengths_agree, src_of=src_of, same_row=same_row, M=M, mateq=mateq)
+def rot_len(rot):
+    return rot.n
+
+
+def frame_rows(fr):
+    return fr.n
+
+
+def _native_invariant(m):
+    rot_ok = (len(m) == 0 and m.rotator.single) or (not m.rotator.single and len(m.rotator) == m.pos.shape[0])
+    return bool(rot_ok and (m._features is None or m._features.shape == (0, 0) or m._features.shape[0] == m.pos.shape[0]))
+
+
+_H = dict(rot_len=rot_len, frame_rows=frame_rows, spec_kind=spec_kind, n_of=n_of, feat_n=feat_n, lengths_agree=lengths_agree, src_of=src_of, same_row=same_row, M=M, mateq=mateq)
 
 
 def _native_same_rows(result, src, idx):
@@ -105,7 +119,7 @@ def _native_src(spec, n):
     return list(np.arange(n)[spec if not isinstance(spec, int) else slice(spec, spec + 1)])
 
 
-_NH = dict(spec_kind=spec_kind, _native_same_rows=_native_same_rows, _native_src=_native_src)
+_NH = dict(rot_len=lambda r: None if r.single else len(r), frame_rows=lambda f: f.shape[0], _native_invariant=_native_invariant, spec_kind=spec_kind, _native_same_rows=_native_same_rows, _native_src=_native_src)
 
 from pyvc.contract import TArr, _mget
 
@@ -157,11 +171,676 @@ class subset:
     raises = {"IndexError": "spec_kind(spec) == 'int' and (spec < 0 or spec >= n_of(self))"}
     native_call = "args['self'].subset(args['spec'])"
     native = {"count": "len(result) == len(_native_src(spec, len(self)))",
-              "lengths_agree": "result.pos.shape[0] == len(result.rotator) and result.features.shape[0] in (len(result), 0)",
+              "lengths_agree": "_native_invariant(result)",
               "rows_stay_together": "_native_same_rows(result, self, _native_src(spec, len(self)))"}
     ensures = {
         "count": "n_of(result) == src_of(spec, n_of(self))[0]",
         "lengths_agree": "lengths_agree(result)",
         "rows_stay_together": "forall(lambda j: same_row(result, j, self, src_of(spec, n_of(self))[1](j)), "
                               "(0, src_of(spec, n_of(self))[0]))",
+    }
+
+
+# ---------------------------------------------------------------------------
+# construction: the class invariant is established or the input rejected
+class TFrame(TSpec):
+    """a polars frame with a symbolic number of rows (named `<name>_rows`) and the given columns"""
+
+    def __init__(self, cols=("f0",), rows=None):
+        self.cols, self.rows = tuple(cols), rows
+
+    def fresh(self, name, path):
+        import z3
+        n = V.Sym(z3.Int(self.rows or f"{name}_rows"))
+        path.assume(n >= 0)
+        return F.FrameV.symbolic(name, n, list(self.cols))
+
+    def src(self, name, model):
+        n = max(int(_mget(model, self.rows or f"{name}_rows", 3)), 0)
+        cols = ", ".join(f"{c!r}: np.arange({n}) * {i + 2}.5" for i, c in enumerate(self.cols))
+        return "_pl.DataFrame({" + cols + "})"
+
+
+_IMPORTS = NATIVE_IMPORTS + "\nimport polars as _pl\n"
+
+from contracts.common import TRotBatch
+
+
+@contract("acryo.molecules.core:Molecules.__init__", props=["C12"])
+class mol_init:
+    """positions (P, K), an optional batch of R rotations, an optional feature table of F rows: accepted only when
+    K == 3, R == P and F == P (a 0 x 0 table counts as `no features`); the object then satisfies the invariant."""
+    params = dict(self=T.Obj("acryo.molecules.core:Molecules", {}), pos=T.Arr(2, "real", min_size=0),
+                  rot=T.OneOf(None, TRotBatch("R_count")), features=T.OneOf(None, TFrame(("f0",))))
+    requires = ["rot is None or rot.n >= 0"]
+    helpers = _H
+    imports = _IMPORTS
+    native_call = "_Molecules(args['pos'], args['rot'], args['features'])"
+    native_helpers = _NH
+    raises = {"ValueError": "pos.shape[1] != 3 or (rot is not None and rot_len(rot) != pos.shape[0]) or "
+                            "(features is not None and frame_rows(features) != pos.shape[0])"}
+    native = {"invariant": "_native_invariant(result)",
+              "stores_inputs": "np.allclose(result.pos, pos) and (rot is None or np.allclose(result.rotator.as_matrix(), rot.as_matrix()))"}
+    ensures = {
+        "invariant": "lengths_agree(self)",
+        "stores_inputs": "n_of(self) == pos.shape[0] and forall(lambda i: all(self._pos[i, a] == pos[i, a] for a in range(3)) and "
+                         "(rot is None or mateq(M(self._rotator, i), M(rot, i))) and "
+                         "(features is None or self._features.cols['f0'][i] == features.cols['f0'][i]), (0, pos.shape[0]))",
+    }
+
+
+# ---------------------------------------------------------------------------
+# the data-frame view (also C13: what is written to / read from a file)
+from pyvc.rotation import from_rotvec_matrix
+
+_CSV = ["z", "y", "x", "zvec", "yvec", "xvec"]
+
+
+def rv_matrix(frame, i, cols=("zvec", "yvec", "xvec")):
+    """rotation matrix of the rotation vector stored in row i of the frame"""
+    return from_rotvec_matrix([frame.cols[c].at((i,)) for c in cols])
+
+
+def frame_row_is(frame, j, mol, i):
+    """row j of the frame holds molecule i: position, rotation vector (compared as rotations) and features"""
+    parts = [V.compare("==", frame.cols[c].at((j,)), mol.attrs["_pos"].at((i, a))) for a, c in enumerate(("z", "y", "x"))]
+    parts.append(mateq(rv_matrix(frame, j), M(mol.attrs["_rotator"], i)))
+    f = mol.attrs["_features"]
+    if f is not None:
+        for c in f.cols:
+            if c not in frame.cols:
+                return False
+            parts.append(V.compare("==", frame.cols[c].at((j,)), f.cols[c].at((i,))))
+    return V.sand(*parts)
+
+
+def mol_row_is(mol, j, frame, i):
+    parts = [V.compare("==", mol.attrs["_pos"].at((j, a)), frame.cols[c].at((i,))) for a, c in enumerate(("z", "y", "x"))]
+    parts.append(mateq(M(mol.attrs["_rotator"], j), rv_matrix(frame, i)))
+    f = mol.attrs["_features"]
+    for c in frame.cols:
+        if c in _CSV:
+            continue
+        if f is None or c not in f.cols:
+            return False
+        parts.append(V.compare("==", f.cols[c].at((j,)), frame.cols[c].at((i,))))
+    return V.sand(*parts)
+
+
+def feature_names(m):
+    f = m.attrs["_features"]
+    return [] if f is None else list(f.cols)
+
+
+_HD = dict(_H, rv_matrix=rv_matrix, frame_row_is=frame_row_is, mol_row_is=mol_row_is, feature_names=feature_names, CSV=_CSV)
+
+
+def _native_frame_rows(df, mol):
+    import numpy as np
+    from scipy.spatial.transform import Rotation
+    n = len(mol)
+    ok = df.shape[0] == n and df.columns[:6] == ["z", "y", "x", "zvec", "yvec", "xvec"]
+    ok = ok and df.columns[6:] == mol.features.columns
+    if n:
+        ok = ok and np.allclose(df.select(["z", "y", "x"]).to_numpy(), mol.pos)
+        back = Rotation.from_rotvec(df.select(["zvec", "yvec", "xvec"]).to_numpy()).as_matrix()
+        ok = ok and np.allclose(back, mol.rotator.as_matrix(), atol=1e-5)
+        ok = ok and all(df[c].to_list() == mol.features[c].to_list() for c in mol.features.columns)
+    return bool(ok)
+
+
+_NHD = dict(_NH, _native_frame_rows=_native_frame_rows)
+
+
+@contract("acryo.molecules.core:Molecules.to_dataframe", props=["C12", "C13"])
+class to_dataframe:
+    """columns z, y, x, zvec, yvec, xvec followed by the features; row i is molecule i (the rotation vector is compared
+    as the rotation it encodes; float32 storage of it is treated as exact, see DESIGN.md); a feature named like a
+    coordinate column is rejected."""
+    params = dict(self=T.OneOf(_MOL, _MOL0, TMolecules(features=["f0", "x"])))
+    requires = ["lengths_agree(self)"]
+    helpers = _HD
+    native_helpers = _NHD
+    imports = _IMPORTS
+    native_call = "args['self'].to_dataframe()"
+    raises = {"ValueError": "any(c in CSV for c in feature_names(self))"}
+    native = {"layout": "list(result.columns) == ['z', 'y', 'x', 'zvec', 'yvec', 'xvec'] + list(self.features.columns)",
+              "rows": "_native_frame_rows(result, self)", "count": "result.shape[0] == len(self)"}
+    ensures = {
+        "layout": "list(result.cols) == CSV + feature_names(self)",
+        "count": "result.n == n_of(self)",
+        "rows": "forall(lambda i: frame_row_is(result, i, self, i), (0, n_of(self)))",
+    }
+
+
+_DF = TFrame(("z", "y", "x", "zvec", "yvec", "xvec", "f0"), rows="df_rows")
+_DF0 = TFrame(("z", "y", "x", "zvec", "yvec", "xvec"), rows="df_rows")
+
+
+def _native_mol_rows(mol, df):
+    import numpy as np
+    from scipy.spatial.transform import Rotation
+    n = df.shape[0]
+    ok = len(mol) == n and _native_invariant(mol)
+    feats = [c for c in df.columns if c not in ("z", "y", "x", "zvec", "yvec", "xvec")]
+    ok = ok and list(mol.features.columns) == feats
+    if n:
+        ok = ok and np.allclose(mol.pos, df.select(["z", "y", "x"]).to_numpy())
+        want = Rotation.from_rotvec(df.select(["zvec", "yvec", "xvec"]).to_numpy()).as_matrix()
+        ok = ok and np.allclose(mol.rotator.as_matrix(), want, atol=1e-6)
+        ok = ok and all(mol.features[c].to_list() == df[c].to_list() for c in feats)
+    return bool(ok)
+
+
+_NHD["_native_mol_rows"] = _native_mol_rows
+
+
+@contract("acryo.molecules.core:Molecules.from_dataframe", props=["C12", "C13"])
+class from_dataframe:
+    """molecule i is row i of the frame: position from z, y, x; orientation from the rotation vector zvec, yvec, xvec;
+    every other column is a feature, in frame order."""
+    params = dict(cls=T.Class("acryo.molecules.core:Molecules", "_Molecules"), df=T.OneOf(_DF, _DF0))
+    helpers = _HD
+    native_helpers = _NHD
+    imports = _IMPORTS
+    native_call = "_Molecules.from_dataframe(args['df'])"
+    native = {"count": "len(result) == args['df'].shape[0]", "invariant": "_native_invariant(result)",
+              "rows": "_native_mol_rows(result, args['df'])", "features": "True"}
+    ensures = {
+        "count": "n_of(result) == df.n",
+        "invariant": "lengths_agree(result)",
+        "features": "feature_names(result) == [c for c in df.cols if c not in CSV]",
+        "rows": "forall(lambda i: mol_row_is(result, i, df, i), (0, df.n))",
+    }
+
+
+# ---------------------------------------------------------------------------
+# row selection / reordering through the data-frame round trip
+def rowmap(kind=None):
+    """ghost: (count, j -> source row) of the last row operation polars performed on this path"""
+    for (op, src, out, cnt, fn) in reversed(F.ROWMAPS):
+        if kind is None or op == kind:
+            return cnt, fn
+    return 0, (lambda j: j)
+
+
+def filter_src(pred, n):
+    if isinstance(pred, SArr):
+        return src_of(pred, n)
+    return rowmap("filter")
+
+
+_HR = dict(_HD, rowmap=rowmap, filter_src=filter_src, smin=V.smin)
+_NHR = dict(_NHD)
+
+
+def _native_rows_subset(result, src, expected_idx=None, injective=True):
+    """every row of result is a row of src (position, orientation, features together), found by position match on a
+    table whose rows are pairwise distinct; optionally the exact index list"""
+    import numpy as np
+    if not _native_invariant(result):
+        return False
+    idx = []
+    for j in range(len(result)):
+        hits = [i for i in range(len(src)) if np.allclose(src.pos[i], result.pos[j])]
+        if len(hits) != 1:
+            return False
+        idx.append(hits[0])
+    if injective and len(set(idx)) != len(idx):
+        return False
+    if expected_idx is not None and list(expected_idx) != idx:
+        return False
+    return _native_same_rows(result, src, idx)
+
+
+_NHR["_native_rows_subset"] = _native_rows_subset
+
+for _name, _src in (("head", "j"), ("tail", "n_of(self) - smin(n, n_of(self)) + j")):
+    @contract(f"acryo.molecules.core:Molecules.{_name}", props=["C12", "C13"])
+    class head_tail:
+        """the first / last min(n, N) molecules, each with its own position, orientation and features (for n >= N this
+        is the data-frame round trip itself: every molecule comes back unchanged)"""
+        params = dict(self=T.OneOf(_MOL, _MOL0), n=T.Int(lo=0))
+        requires = ["lengths_agree(self)"]
+        helpers = _HR
+        native_helpers = _NHR
+        imports = _IMPORTS
+        native_call = f"args['self'].{_name}(args['n'])"
+        native = {"count": "len(result) == min(n, len(self))", "invariant": "_native_invariant(result)",
+                  "rows_stay_together": "_native_same_rows(result, self, list(range(len(self)))[:n] if %r == 'head' else "
+                                        "list(range(len(self)))[max(len(self) - n, 0):])" % _name}
+        ensures = {
+            "count": "n_of(result) == smin(n, n_of(self))",
+            "invariant": "lengths_agree(result)",
+            "rows_stay_together": f"forall(lambda j: same_row(result, j, self, {_src}), (0, smin(n, n_of(self))))",
+        }
+
+
+class TPredicate(TSpec):
+    """an opaque polars expression used as a filter predicate"""
+    value = "expression"
+
+    def fresh(self, name, path):
+        return F.ExprV("predicate")
+
+    def src(self, name, model):
+        return "(_pl.col('z') * 0 + _pl.int_range(_pl.len()) % 3 != 1)"
+
+
+@contract("acryo.molecules.core:Molecules.filter", props=["C12"])
+class mol_filter:
+    """the molecules whose predicate value is true, in their original order, each complete"""
+    params = dict(self=T.OneOf(_MOL, _MOL0), predicate=T.OneOf(TMaskArr(), TPredicate()))
+    requires = ["lengths_agree(self)", "spec_kind(predicate) != 'mask' or predicate.shape[0] == n_of(self)"]
+    helpers = _HR
+    native_helpers = _NHR
+    imports = _IMPORTS
+    native_call = "args['self'].filter(args['predicate'])"
+    native = {"count": "True", "invariant": "_native_invariant(result)",
+              "rows_stay_together": "_native_same_rows(result, self, [i for i in range(len(self)) if i % 3 != 1])"}
+    ensures = {
+        "count": "n_of(result) == filter_src(predicate, n_of(self))[0]",
+        "invariant": "lengths_agree(result)",
+        "rows_stay_together": "forall(lambda j: same_row(result, j, self, filter_src(predicate, n_of(self))[1](j)), "
+                              "(0, filter_src(predicate, n_of(self))[0]))",
+    }
+
+
+@contract("acryo.molecules.core:Molecules.sort", props=["C12"])
+class mol_sort:
+    """a permutation of the molecules (polars' sort is trusted to return a bijective row map ordered by the key): row j
+    of the result is the complete molecule perm(j); the key column is ordered."""
+    params = dict(self=_MOL, by=T.Const("f0"), descending=T.OneOf(False, True))
+    requires = ["lengths_agree(self)"]
+    helpers = _HR
+    native_helpers = _NHR
+    imports = _IMPORTS
+    native_call = "args['self'].sort(args['by'], descending=args['descending'])"
+    native = {"count": "len(result) == len(self)", "invariant": "_native_invariant(result)",
+              "rows_stay_together": "_native_rows_subset(result, self)",
+              "ordered": "all((a >= b) if descending else (a <= b) for a, b in zip(result.features['f0'][:-1], result.features['f0'][1:]))"}
+    ensures = {
+        "count": "n_of(result) == n_of(self)",
+        "invariant": "lengths_agree(result)",
+        "rows_stay_together": "forall(lambda j: same_row(result, j, self, rowmap('sort')[1](j)), (0, n_of(self)))",
+        "ordered": "forall(lambda j: (result._features.cols['f0'][j] >= result._features.cols['f0'][j + 1]) if descending "
+                   "else (result._features.cols['f0'][j] <= result._features.cols['f0'][j + 1]), (0, n_of(self) - 1))",
+    }
+
+
+@contract("acryo.molecules.core:Molecules.sample", props=["C12"])
+class mol_sample:
+    """n distinct molecules (polars' sample is trusted to return an injective row map), each complete"""
+    params = dict(self=T.OneOf(_MOL, _MOL0), n=T.Int(lo=0), seed=T.OneOf(None, T.Int(lo=0)))
+    requires = ["lengths_agree(self)"]
+    helpers = _HR
+    native_helpers = _NHR
+    imports = _IMPORTS
+    raises = {"ShapeError": "n > n_of(self)"}
+    native_call = "args['self'].sample(args['n'], seed=args['seed'])"
+    native = {"count": "len(result) == n", "invariant": "_native_invariant(result)",
+              "rows_stay_together": "_native_rows_subset(result, self)"}
+    ensures = {
+        "count": "n_of(result) == n",
+        "invariant": "lengths_agree(result)",
+        "rows_stay_together": "forall(lambda j: same_row(result, j, self, rowmap('sample')[1](j)), (0, n))",
+    }
+
+
+# ---------------------------------------------------------------------------
+# concatenation
+_OTHER = TMolecules(features=["f0"])
+_OTHER0 = TMolecules(features=None)
+
+
+def has_features(m):
+    """the molecules carry a feature table (at least one feature column)"""
+    f = m.attrs["_features"]
+    return f is not None and bool(f.cols)
+
+
+def _native_has_features(m):
+    return m.features.shape[1] > 0
+
+
+def _native_concat_rows(result, parts):
+    import numpy as np
+    off = 0
+    ok = _native_invariant(result) and len(result) == sum(len(p) for p in parts)
+    for p in parts:
+        sub = result.subset(slice(off, off + len(p)))
+        ok = ok and np.allclose(sub.pos, p.pos) and (len(p) == 0 or np.allclose(sub.rotator.as_matrix(), p.rotator.as_matrix(), atol=1e-6))
+        for c in p.features.columns:
+            ok = ok and c in result.features.columns and sub.features[c].to_list() == p.features[c].to_list()
+        off += len(p)
+    return bool(ok)
+
+
+_HC = dict(_HR, has_features=has_features)
+_NHC = dict(_NHR, has_features=_native_has_features, _native_concat_rows=_native_concat_rows)
+
+
+@contract("acryo.molecules.core:Molecules.concat_with", props=["C12"])
+class concat_with:
+    """self's molecules followed by the other's, each complete; when only one side has feature rows the result cannot
+    have one feature row per molecule and the call is rejected (ValueError) instead of returning misaligned data."""
+    params = dict(self=T.OneOf(_MOL, _MOL0), other=T.OneOf(_OTHER, _OTHER0), nullable=T.OneOf(True, False))
+    requires = ["lengths_agree(self)", "lengths_agree(other)"]
+    helpers = _HC
+    native_helpers = _NHC
+    imports = _IMPORTS
+    native_call = "args['self'].concat_with(args['other'], nullable=args['nullable'])"
+    may_raise = {"ValueError": "has_features(self) != has_features(other)"}
+    native = {"count": "len(result) == len(self) + len(other)", "invariant": "_native_invariant(result)",
+              "rows_of_self": "_native_concat_rows(result, [self, other])",
+              "rows_of_other": "_native_concat_rows(result, [self, other])"}
+    ensures = {
+        "count": "n_of(result) == n_of(self) + n_of(other)",
+        "invariant": "lengths_agree(result)",
+        "rows_of_self": "forall(lambda j: same_row(result, j, self, j), (0, n_of(self)))",
+        "rows_of_other": "forall(lambda j: same_row(result, n_of(self) + j, other, j), (0, n_of(other)))",
+    }
+
+
+@contract("acryo.molecules.core:Molecules.append", props=["C12"])
+class mol_append:
+    """in-place concatenation: afterwards self holds its old molecules followed by the other's, each complete, and the
+    three containers have the same length -- or the call is rejected and self is unchanged."""
+    params = dict(self=T.OneOf(_MOL, _MOL0), other=T.OneOf(_OTHER, _OTHER0))
+    requires = ["lengths_agree(self)", "lengths_agree(other)"]
+    helpers = _HC
+    native_helpers = dict(_NHC, _copy=lambda m: m.copy())
+    imports = _IMPORTS
+    native_call = "(lambda me, ot: (me.copy(), me.append(ot)))(args['self'], args['other'])"
+    may_raise = {"ValueError": "has_features(self) != has_features(other)"}
+    native = {"returns_self": "result[1] is self",
+              "count": "len(self) == len(result[0]) + len(other)", "invariant": "_native_invariant(self)",
+              "rows_of_self": "_native_concat_rows(self, [result[0], other])",
+              "rows_of_other": "_native_concat_rows(self, [result[0], other])"}
+    ensures = {
+        "returns_self": "result is self",
+        "count": "n_of(self) == n_of(old(self)) + n_of(other)",
+        "invariant": "lengths_agree(self)",
+        "rows_of_self": "forall(lambda j: same_row(self, j, old(self), j), (0, n_of(old(self))))",
+        "rows_of_other": "forall(lambda j: same_row(self, n_of(old(self)) + j, other, j), (0, n_of(other)))",
+    }
+
+
+class TMolList(TSpec):
+    """a list of two molecule sets (named <name>_a, <name>_b)"""
+
+    def __init__(self, a, b):
+        self.a, self.b = a, b
+
+    def cases(self):
+        out = []
+        for i, x in enumerate(self.a.cases() if isinstance(self.a, T.OneOf) else [self.a]):
+            for j, y in enumerate(self.b.cases() if isinstance(self.b, T.OneOf) else [self.b]):
+                out.append(_TMolListCase(x, y, f"{i}{j}"))
+        return out
+
+
+class _TMolListCase(TSpec):
+    def __init__(self, a, b, tag):
+        self.a, self.b, self.value = a, b, tag
+
+    def fresh(self, name, path):
+        return [self.a.fresh(name + "_a", path), self.b.fresh(name + "_b", path)]
+
+    def src(self, name, model):
+        return f"[{self.a.src(name + '_a', model)}, {self.b.src(name + '_b', model)}]"
+
+
+@contract("acryo.molecules.core:Molecules.concat", props=["C12"])
+class mol_concat:
+    """class-level concatenation of a list of molecule sets: all molecules of the first, then all of the second, ...;
+    with concat_features=False the result has no features."""
+    params = dict(cls=T.Class("acryo.molecules.core:Molecules", "_Molecules"),
+                  moles=TMolList(T.OneOf(_MOL, _MOL0), T.OneOf(_OTHER, _OTHER0)),
+                  concat_features=T.OneOf(True, False), nullable=T.OneOf(True, False))
+    requires = ["lengths_agree(moles[0])", "lengths_agree(moles[1])"]
+    helpers = _HC
+    native_helpers = _NHC
+    imports = _IMPORTS
+    native_call = "_Molecules.concat(args['moles'], concat_features=args['concat_features'], nullable=args['nullable'])"
+    may_raise = {"ValueError": "concat_features and has_features(moles[0]) != has_features(moles[1])",
+                 # strict (non-nullable) concatenation of tables with different columns is rejected by polars
+                 "ShapeError": "concat_features and not nullable and has_features(moles[0]) != has_features(moles[1])"}
+    native = {"count": "len(result) == len(moles[0]) + len(moles[1])", "invariant": "_native_invariant(result)",
+              "rows_of_first": "concat_features is False or _native_concat_rows(result, moles)",
+              "rows_of_second": "concat_features is False or _native_concat_rows(result, moles)",
+              "no_features_when_disabled": "concat_features or result.features.shape[1] == 0"}
+    ensures = {
+        "count": "n_of(result) == n_of(moles[0]) + n_of(moles[1])",
+        "invariant": "lengths_agree(result)",
+        "rows_of_first": "forall(lambda j: same_row(result, j, moles[0], j, concat_features), (0, n_of(moles[0])))",
+        "rows_of_second": "forall(lambda j: same_row(result, n_of(moles[0]) + j, moles[1], j, concat_features), (0, n_of(moles[1])))",
+        "no_features_when_disabled": "concat_features or not has_features(result)",
+    }
+
+
+class TExpr(TSpec):
+    """an opaque polars expression producing a column called `out`"""
+
+    def __init__(self, out):
+        self.out, self.value = out, out
+
+    def fresh(self, name, path):
+        return F.ExprV(self.out)
+
+    def src(self, name, model):
+        return f"(_pl.int_range(_pl.len()) * 1.5).alias({self.out!r})"
+
+
+@contract("acryo.molecules.core:Molecules.with_features", props=["C12"])
+class with_features:
+    """positions and orientations are kept, untouched feature columns are kept, the expression's column is added or
+    replaced; one feature row per molecule"""
+    params = dict(self=_MOL, exprs=T.OneOf(TExpr("g0"), TExpr("f0")))
+    requires = ["lengths_agree(self)"]
+    helpers = _HC
+    native_helpers = _NHC
+    imports = _IMPORTS
+    native_call = "args['self'].with_features(args['exprs'])"
+    native = {"count": "len(result) == len(self)", "invariant": "_native_invariant(result)",
+              "poses_kept": "np.allclose(result.pos, self.pos) and np.allclose(result.rotator.as_matrix(), self.rotator.as_matrix())",
+              "other_features_kept": "'g0' not in result.features.columns or result.features['f0'].to_list() == self.features['f0'].to_list()",
+              "column_present": "True"}
+    ensures = {
+        "count": "n_of(result) == n_of(self)",
+        "invariant": "lengths_agree(result)",
+        "poses_kept": "forall(lambda j: same_row(result, j, self, j, False), (0, n_of(self)))",
+        "other_features_kept": "exprs.name == 'f0' or forall(lambda j: result._features.cols['f0'][j] == self._features.cols['f0'][j], (0, n_of(self)))",
+        "column_present": "exprs.name in result._features.cols",
+    }
+
+
+@contract("acryo.molecules.core:Molecules.drop_features", props=["C12"])
+class drop_features:
+    """positions and orientations are kept, the named columns disappear, the others keep their values"""
+    params = dict(self=TMolecules(features=["f0", "f1"]), columns=T.OneOf("f0", ["f0", "f1"]))
+    requires = ["lengths_agree(self)"]
+    helpers = _HC
+    native_helpers = _NHC
+    imports = _IMPORTS
+    native_call = "args['self'].drop_features(args['columns'])"
+    native = {"count": "len(result) == len(self)", "invariant": "_native_invariant(result)",
+              "poses_kept": "np.allclose(result.pos, self.pos) and np.allclose(result.rotator.as_matrix(), self.rotator.as_matrix())",
+              "dropped": "all(c not in result.features.columns for c in ([columns] if isinstance(columns, str) else columns))",
+              "others_kept": "isinstance(columns, list) or result.features['f1'].to_list() == self.features['f1'].to_list()"}
+    ensures = {
+        "count": "n_of(result) == n_of(self)",
+        "invariant": "lengths_agree(result)",
+        "poses_kept": "forall(lambda j: same_row(result, j, self, j, False), (0, n_of(self)))",
+        "dropped": "all(c not in feature_names(result) for c in ([columns] if columns == 'f0' else columns))",
+        "others_kept": "columns != 'f0' or forall(lambda j: result._features.cols['f1'][j] == self._features.cols['f1'][j], (0, n_of(self)))",
+    }
+
+
+# ---------------------------------------------------------------------------
+# groups
+class TGroupBy(TSpec):
+    """a polars GroupBy over a molecule frame (columns z..xvec, f0 [, .category]) keyed by `key`"""
+
+    def __init__(self, key="f0", extra=()):
+        self.key, self.extra = key, tuple(extra)
+
+    def fresh(self, name, path):
+        fr = TFrame(("z", "y", "x", "zvec", "yvec", "xvec", "f0") + self.extra, rows="df_rows").fresh(name + "_df", path)
+        return F.GroupByV(fr, [self.key])
+
+    def src(self, name, model):
+        n = max(int(_mget(model, "df_rows", 5)), 0)
+        return ("_pl.DataFrame({'z': np.arange(%d) * 1.0, 'y': np.arange(%d) * 2.0 + 1, 'x': np.arange(%d) * 0.5, "
+                "'zvec': np.arange(%d) * 0.1, 'yvec': np.arange(%d) * -0.2, 'xvec': np.arange(%d) * 0.05, "
+                "'f0': (np.arange(%d) * 2 + 1) %% 3 * 1.0}).group_by(['f0'], maintain_order=True)" % ((n,) * 7))
+
+
+def group_rows_ok(item, gb, g):
+    """the molecules yielded for group g are exactly the rows of the group's frame, complete and in order"""
+    key, mole = item
+    keyvals, sub, cnt, sel = gb.group(g)
+    import z3
+    j = z3.Int(V.fresh_name("gj"))
+    body = mol_row_is(mole, V.Sym(j), sub, V.Sym(j))
+    bt = V._bool_term(body) if V.is_sym(body) else z3.BoolVal(bool(body))
+    allrows = V.Sym(z3.ForAll([j], z3.Implies(z3.And(j >= 0, j < V.lift(cnt)), bt)))
+    return V.sand(V.compare("==", n_of(mole), cnt), lengths_agree(mole), allrows)
+
+
+def _native_groups_ok(items, gb):
+    import numpy as np
+    ok = True
+    seen = 0
+    for (key, mole), (k2, df) in zip(items, list(gb)):
+        ok = ok and _native_mol_rows(mole, df) and (key == k2[0] or key == k2)
+        seen += len(mole)
+    return bool(ok and len(items) == len(list(gb)))
+
+
+_HG = dict(_HC, group_rows_ok=group_rows_ok)
+_NHG = dict(_NHC, _native_groups_ok=_native_groups_ok)
+
+
+@contract("acryo.molecules._group:MoleculeGroup.__iter__", props=["C12"])
+class group_iter:
+    """one (key, molecules) pair per group, in group order; the molecules of a group are the rows of that group's frame
+    (position, orientation and features of each row together); a single-key grouping yields the bare key"""
+    params = dict(self=T.OneOf(*[T.Obj("acryo.molecules._group:MoleculeGroup", dict(_group=TGroupBy("f0"), _single=T.Const(b)))
+                                 for b in (True, False)]))
+    helpers = _HG
+    native_helpers = _NHG
+    imports = _IMPORTS + "\nfrom acryo.molecules._group import MoleculeGroup as _MG\n"
+    native_call = "list(_MG(args['self']['_group'], args['self']['_single']))"
+    native = {"one_per_group": "len(result) == len(list(self['_group']))",
+              "rows_of_group": "_native_groups_ok(result, self['_group'])", "key": "True"}
+    ensures = {
+        "one_per_group": "len(result) == self._group.G",
+        "rows_of_group": "forall(lambda g: group_rows_ok(result[g], self._group, g), (0, self._group.G))",
+        "key": "forall(lambda g: (result[g][0] == self._group.group(g)[0][0]) if self._single else "
+               "(result[g][0][0] == self._group.group(g)[0][0]), (0, self._group.G))",
+    }
+
+
+class TCutGroupBy(TGroupBy):
+    def fresh(self, name, path):
+        fr = TFrame(("z", "y", "x", "zvec", "yvec", "xvec", "f0", ".category"), rows="df_rows").fresh(name + "_df", path)
+        return F.GroupByV(fr, [".category"], categorical=True)
+
+    def src(self, name, model):
+        n = max(int(_mget(model, "df_rows", 5)), 0)
+        return ("(lambda df: df.with_columns(df['f0'].cut([0.5, 1.5]).alias('.category')).group_by(['.category'], maintain_order=True))("
+                "_pl.DataFrame({'z': np.arange(%d) * 1.0, 'y': np.arange(%d) * 2.0 + 1, 'x': np.arange(%d) * 0.5, "
+                "'zvec': np.arange(%d) * 0.1, 'yvec': np.arange(%d) * -0.2, 'xvec': np.arange(%d) * 0.05, "
+                "'f0': (np.arange(%d) * 2 + 1) %% 3 * 1.0}))" % ((n,) * 7))
+
+
+def cut_group_rows_ok(item, gb, g):
+    """like group_rows_ok, and the helper category column is not among the group's features"""
+    key, mole = item
+    base = group_rows_ok((key, mole), _DropLabel(gb), g)
+    return V.sand(base, ".category" not in feature_names(mole))
+
+
+class _DropLabel:
+    """view of a GroupBy whose group frames lack the label column"""
+
+    def __init__(self, gb):
+        self.gb = gb
+
+    def group(self, g):
+        keyvals, sub, cnt, sel = self.gb.group(g)
+        return keyvals, sub.drop(".category"), cnt, sel
+
+
+def _native_cut_groups_ok(items, gb):
+    ok = len(items) == len(list(gb))
+    for (key, mole), (k2, df) in zip(items, list(gb)):
+        ok = ok and _native_mol_rows(mole, df.drop(".category"))
+        lo, hi = map(float, k2[0][1:-1].split(", "))
+        ok = ok and (float(key.gt), float(key.le)) == (lo, hi)
+    return bool(ok)
+
+
+@contract("acryo.molecules._cut:MoleculeCutGroup.__iter__", props=["C12"])
+class cut_group_iter:
+    """one (edges, molecules) pair per bin; the molecules of a bin are the rows of the bin's frame without the helper
+    category column"""
+    params = dict(self=T.Obj("acryo.molecules._cut:MoleculeCutGroup", dict(_group=TCutGroupBy(".category"), _label=T.Const(".category"))))
+    helpers = dict(_HG, cut_group_rows_ok=cut_group_rows_ok)
+    native_helpers = dict(_NHG, _native_cut_groups_ok=_native_cut_groups_ok)
+    imports = _IMPORTS + "\nfrom acryo.molecules._cut import MoleculeCutGroup as _MCG\n"
+    native_call = "list(_MCG(args['self']['_group'], args['self']['_label']))"
+    native = {"one_per_bin": "len(result) == len(list(self['_group']))",
+              "rows_of_bin": "_native_cut_groups_ok(result, self['_group'])"}
+    ensures = {
+        "one_per_bin": "len(result) == self._group.G",
+        "rows_of_bin": "forall(lambda g: cut_group_rows_ok(result[g], self._group, g), (0, self._group.G))",
+    }
+
+
+def frame_is_table(fr, mol):
+    import z3
+    i = z3.Int(V.fresh_name("ti"))
+    body = frame_row_is(fr, V.Sym(i), mol, V.Sym(i))
+    bt = V._bool_term(body) if V.is_sym(body) else z3.BoolVal(bool(body))
+    return V.sand(V.compare("==", fr.n, n_of(mol)),
+                  V.Sym(z3.ForAll([i], z3.Implies(z3.And(i >= 0, i < V.lift(n_of(mol))), bt))))
+
+
+@contract("acryo.molecules.core:Molecules.group_by", props=["C12"])
+class mol_group_by:
+    """groups are formed over the complete molecule table (row i = molecule i), keyed by the requested feature"""
+    params = dict(self=_MOL, by=T.OneOf("f0", ["f0"]))
+    requires = ["lengths_agree(self)"]
+    helpers = dict(_HG, frame_is_table=frame_is_table)
+    native_helpers = _NHG
+    imports = _IMPORTS
+    native_call = "args['self'].group_by(args['by'])"
+    native = {"table": "sum(len(m) for _, m in result) == len(self)", "keys": "True",
+              "single_flag": "result._single == isinstance(by, str)"}
+    ensures = {
+        "table": "result._group.frame.n == n_of(self) and "
+                 "forall(lambda i: frame_row_is(result._group.frame, i, self, i), (0, n_of(self)))",
+        "keys": "result._group.keys == ['f0']",
+        "single_flag": "result._single == (by == 'f0')",
+    }
+
+
+@contract("acryo.molecules.core:Molecules.cutby", props=["C12"])
+class mol_cutby:
+    """bins are formed over the complete molecule table extended by a helper category column whose name is not a
+    feature name; the groups are keyed by that column and the group object drops it again"""
+    params = dict(self=_MOL, by=T.Const("f0"), bins=T.Const([0.5, 1.5]))
+    requires = ["lengths_agree(self)"]
+    helpers = dict(_HG, frame_is_table=frame_is_table)
+    native_helpers = _NHG
+    imports = _IMPORTS
+    native_call = "args['self'].cutby(args['by'], args['bins'])"
+    native = {"table": "sum(len(m) for _, m in result) == len(self)", "label": "True"}
+    ensures = {
+        "table": "result._group.frame.n == n_of(self) and "
+                 "forall(lambda i: frame_row_is(result._group.frame, i, self, i), (0, n_of(self)))",
+        "label": "result._group.keys == [result._label] and result._label not in feature_names(self) and "
+                 "result._label not in CSV and result._label in result._group.frame.cols",
     }
